@@ -69,6 +69,7 @@ type streamCase struct {
 	Big         bool                `json:"big,omitempty"`
 	Faults      []string            `json:"faulty_request_lines,omitempty"` // http: request lines that are no target (one error each)
 	Sched       []int               `json:"-"`
+	panicked    bool                // a direct call panicked in runStream
 }
 
 var keys = []string{"X-Account-ID", "x-account-id", "Content-Type", "Authorization", "X", "k1", "ETag"}
@@ -412,6 +413,9 @@ func runStream(s *kit.Summary, sc *streamCase) (implLine string) {
 	panicReported := false
 	gaveUpReported := false
 	for g, l := range logs {
+		if l.panicMsg != "" {
+			sc.panicked = true
+		}
 		if l.panicMsg != "" && !panicReported {
 			panicReported = true
 			s.Violate(kit.Violation{Kind: "targeter_panic_concurrent", What: "a targeter call panicked: " + l.panicMsg, Input: sc,
@@ -705,7 +709,12 @@ type recorder struct {
 	seen []string
 }
 
-func (rc *recorder) RoundTrip(req *http.Request) (*http.Response, error) {
+func (rc *recorder) RoundTrip(req *http.Request) (resp *http.Response, err error) {
+	defer func() {
+		if r := recover(); r != nil { // runs on the attack's goroutine: never let the harness die here
+			resp, err = nil, fmt.Errorf("recorder: %v", r)
+		}
+	}()
 	var body []byte
 	if req.Body != nil {
 		body, _ = io.ReadAll(req.Body)
@@ -736,7 +745,25 @@ func (p stopAfter) Rate(time.Duration) float64                              { re
 // attackAndRecord runs Attacker.Attack with `workers` workers over tr until the attack ends
 // (stream targeters: the first error of the targeter stops it) and returns what the transport
 // saw, sorted; nil when the attack did not end.
-func attackAndRecord(tr vegeta.Targeter, workers int, p vegeta.Pacer) (seen []string, errs map[string]int, ended bool) {
+//
+// The attack calls the targeter on goroutines of its own, where a panic would end the whole
+// harness: the targeter is handed over inside a function that recovers (same Target pointer, same
+// result); the first panic message is returned and the attack ends on the error it is given.
+func attackAndRecord(inner vegeta.Targeter, workers int, p vegeta.Pacer) (seen []string, errs map[string]int, ended bool, panicked string) {
+	var pmu sync.Mutex
+	tr := func(t *vegeta.Target) (err error) {
+		defer func() {
+			if r := recover(); r != nil {
+				pmu.Lock()
+				if panicked == "" {
+					panicked = fmt.Sprint(r)
+				}
+				pmu.Unlock()
+				err = fmt.Errorf("targeter panicked: %v", r)
+			}
+		}()
+		return inner(t)
+	}
 	rc := &recorder{}
 	atk := vegeta.NewAttacker(vegeta.Client(&http.Client{Transport: rc}), vegeta.Workers(uint64(workers)), vegeta.MaxWorkers(uint64(workers)))
 	errs = map[string]int{}
@@ -751,13 +778,15 @@ func attackAndRecord(tr vegeta.Targeter, workers int, p vegeta.Pacer) (seen []st
 		}
 	}()
 	if !waitTimeout(&wg, hangLimit) {
-		return nil, nil, false
+		return nil, nil, false, ""
 	}
 	rc.mu.Lock()
 	seen = append([]string{}, rc.seen...)
 	rc.mu.Unlock()
 	sort.Strings(seen)
-	return seen, errs, true
+	pmu.Lock()
+	defer pmu.Unlock()
+	return seen, errs, true, panicked
 }
 
 type attackStreamCase struct {
@@ -791,8 +820,14 @@ func runAttackStream(s *kit.Summary, sc *streamCase) {
 	var seen []string
 	var errs map[string]int
 	ended := false
-	if p, msg := kit.Recover(func() { seen, errs, ended = attackAndRecord(tr, sc.Callers, vegeta.ConstantPacer{}) }); p {
-		s.Violate(kit.Violation{Kind: "attack_workers_panic", What: "Attack panicked while its workers drew from a stream targeter: " + msg, Input: in, Key: key})
+	pmsg := ""
+	if p, msg := kit.Recover(func() { seen, errs, ended, pmsg = attackAndRecord(tr, sc.Callers, vegeta.ConstantPacer{}) }); p {
+		pmsg = msg
+	}
+	if pmsg != "" {
+		s.Violate(kit.Violation{Kind: "attack_workers_panic", What: "a targeter call by an attack's worker panicked: " + pmsg, Input: in,
+			Expected: "every call returns a target or an error", Observed: "panic: " + pmsg,
+			Key: map[string]interface{}{"format": sc.Format, "workers": sc.Callers, "nil_default_map": sc.Defaults == nil}})
 		return
 	}
 	if !ended {
@@ -856,10 +891,14 @@ func runAttackStatic(s *kit.Summary, sc attackStaticCase) {
 	sort.Strings(exp)
 	var seen []string
 	ended := false
+	pmsg := ""
 	if p, msg := kit.Recover(func() {
-		seen, _, ended = attackAndRecord(vegeta.NewStaticTargeter(tgts...), sc.Workers, stopAfter{uint64(sc.Hits)})
+		seen, _, ended, pmsg = attackAndRecord(vegeta.NewStaticTargeter(tgts...), sc.Workers, stopAfter{uint64(sc.Hits)})
 	}); p {
-		s.Violate(kit.Violation{Kind: "attack_static_workers_panic", What: "Attack panicked while its workers drew from the static targeter: " + msg, Input: sc})
+		pmsg = msg
+	}
+	if pmsg != "" {
+		s.Violate(kit.Violation{Kind: "attack_static_workers_panic", What: "a call of the static targeter by an attack's worker panicked: " + pmsg, Input: sc})
 		return
 	}
 	if !ended {
@@ -901,6 +940,13 @@ func rounds(c *run.Ctx, s *kit.Summary, r *kit.Rng, nStatic, nStream int, withDr
 	if err := os.MkdirAll(work, 0o755); err != nil {
 		panic(err)
 	}
+	// The direct-call rounds (every call under recover) come first; the rounds in which a real
+	// attack's workers are the callers come afterwards, and only for inputs whose direct round saw
+	// no panic and no hang. A stream case is generated from a seed of its own, so that the second
+	// pass generates the same case again instead of keeping thousands of them.
+	var atkStatic []attackStaticCase
+	caseRng := func(i int) *kit.Rng { return kit.NewRng(c.Seed*1000003 + int64(i)*7919 + 17) }
+	attackable := make([]bool, nStream)
 	st := &kit.Stream{Name: "c15.static"}
 	for i := 0; i < nStatic && !hung; i++ {
 		sc := staticCase{K: 1 + r.Pick(20), Callers: 1 + r.Pick(64), Draws: 1 + r.Pick(60)}
@@ -908,8 +954,8 @@ func rounds(c *run.Ctx, s *kit.Summary, r *kit.Rng, nStatic, nStream int, withDr
 			sc.Callers = 1
 		}
 		line := runStatic(s, sc)
-		if !hung {
-			runAttackStatic(s, attackStaticCase{K: sc.K, Workers: sc.Callers, Hits: sc.Callers*sc.Draws/2 + r.Pick(40)})
+		if line != "hang" && line != "panic" {
+			atkStatic = append(atkStatic, attackStaticCase{K: sc.K, Workers: sc.Callers, Hits: sc.Callers*sc.Draws/2 + r.Pick(40)})
 		}
 		s.Case(fmt.Sprint("s:", sc), sc.Callers > 1 && sc.K > 1)
 		s.Count("static:rounds")
@@ -932,11 +978,10 @@ func rounds(c *run.Ctx, s *kit.Summary, r *kit.Rng, nStatic, nStream int, withDr
 		if i%2 == 1 {
 			format = "http"
 		}
-		sc := genStreamCase(r, format, work, i)
+		sc := genStreamCase(caseRng(i), format, work, i)
 		line := runStream(s, &sc)
-		if !hung && len(sc.Faults) == 0 { // an attack ends at the first error
-			runAttackStream(s, &sc)
-		}
+		// (an attack ends at the first error: inputs with faulty lines are not attacked)
+		attackable[i] = line != "hang" && !sc.panicked && len(sc.Faults) == 0
 		s.Case("t:"+sc.Src+strconv.Itoa(sc.Callers), sc.Callers > 1 && len(sc.Expected) > 1)
 		s.Count(format + ":rounds")
 		s.CountN(format+":targets", len(sc.Expected))
@@ -957,6 +1002,24 @@ func rounds(c *run.Ctx, s *kit.Summary, r *kit.Rng, nStatic, nStream int, withDr
 		st.Diff(c.Driver, s)
 		js.Diff(c.Driver, s)
 		hs.Diff(c.Driver, s)
+	}
+	for _, ac := range atkStatic {
+		if hung {
+			break
+		}
+		runAttackStatic(s, ac)
+	}
+	for i := 0; i < nStream && !hung; i++ {
+		if !attackable[i] {
+			s.Count("attack_round_skipped:direct_round_panicked_hung_or_faulty_input")
+			continue
+		}
+		format := "json"
+		if i%2 == 1 {
+			format = "http"
+		}
+		sc := genStreamCase(caseRng(i), format, work, i)
+		runAttackStream(s, &sc)
 	}
 }
 
